@@ -63,6 +63,9 @@ RISKY = [
     ["[x](https://e.org){#lnku .c} <https://e.org>{#lnka} [w](wiki:A){#lnkw}"], ["[x](inv:k#alpha){#lnki} [p](path:other.md){#lnkp} [q](project:other.md){#lnkq}"],
     ["# Local", "", "[a](#local){#la} [](#local){#lb} [c](#far-target){#la}"], ["`code`{#cid .c} *em*{#eid} [span]{#sid} ![i](x.png){#iid} $m${#mid}"],
     ["> [x](#far-target){#qlnk}", "", "- [y](#far-target){#llnk}", "", "```{note}", "[z](#far-target){#nlnk}", "```"],
+    # explicit ids whose spelling is not the normalised one (upper case, '_', '.', non-ASCII), used twice
+    ["{#Fig_1}", "para", "", "{#Fig_1}", "para2", "", "[a](#Fig_1) [b](#fig-1)"], ["[t]{#Sp_A} [u]{#Sp_A} [v]{#sp-a}"], ["# h {#Head_X}", "", "## g {#Head_X}", "", "[](#Head_X)"], ["![a](i.png){#Im_G}", "", "![b](j.png){#Im_G}"],
+    ["{#ÜbEr}", "p1", "", "{#über}", "p2", "", "{#UBER}", "p3"], ["```{note}", ":name: My_Name", "x", "```", "", "```{tip}", ":name: My_Name", "y", "```"], ["(My_Target)=", "p", "", "(my-target)=", "q", "", "(My_Target)=", "r"],
     # html blocks that are only partly convertible, their names linked to
     ['<img src="a.png" name="hx"><b>tail</b>', "", "[t](#hx) [](#hx)"], ['<div class="admonition" name="ha"><p>x</p></div><span>tail</span>', "", "[t](#ha)"], ['<img src="a.png" name="hy"><img alt="nosrc">', "", "[t](#hy)"],
     ['<img src="a.png" name="hz">', '<div class="admonition" name="hz"><p>x</p></div>', "", "[t](#hz)"], ['text <img src="a.png" name="hi"> <b>b</b> [t](#hi)'], ['<div class="admonition" name="hq">', "<img src=\"q.png\" name=\"hq2\">", "</div>", "", "[a](#hq) [b](#hq2)"],
